@@ -18,7 +18,7 @@ def _minalign(hdr):
 SPEC = dict(
     harness=['h_tree.c'], cflags=['-DVF_TREE_RBT'],
     configs=lambda tier: [dict(name='packed'), dict(name='unpacked', cflags=['-DA_SIZE_POINTER=1']), dict(name='clang', libcc='clang'), dict(name='o2', libflavour='san-o2', libdrop=['-fno-strict-aliasing']),
-                          dict(name='unpacked-uchar', cflags=['-DA_SIZE_POINTER=1', '-funsigned-char'])] +
+                          dict(name='unpacked-uchar', cflags=['-DA_SIZE_POINTER=1', '-funsigned-char', '-funsigned-bitfields'])] +
                          [dict(name='minalign', cflags=['-fno-sanitize=alignment'], hflags=['-DVF_MINALIGN=%d' % n]) for n in _minalign('rbt.h')],
     parallel_configs=6,
     workers={'quick': 12, 'thorough': 16},
